@@ -494,7 +494,7 @@ class FitBase(FileIOMixin, object):
                 self._set_new_data(_old_data_container)
                 self._param_model = _old_param_model
             raise
-        self._param_model._on_error_change_callbacks = [self._on_error_change]
+        self._param_model._on_error_change_callback = self._on_error_change
 
     @property
     def data_error(self):
